@@ -70,6 +70,13 @@ CLAIMED.update({
             "Assumes bits-and-blooms NewWithEstimates is the intended sizing rule (README: filters are sized from measured distinct entries).", "DESIGN.md section 5 C26"),
 })
 
+CLAIMED.update({
+    "C19": ("exploration",
+            "property-based testing (rapid) + Go native coverage-guided fuzzing (thorough tier): structured byte mutations and CRC-consistent hostile framing fields over engine-written files; oracle = no panic, allocation bound, in-bounds metadata, returned rows subset of written rows, exact-or-error with MetaStore-held metadata, clean Merge over a corrupted source",
+            "3 000 (quick) / 150 000 (thorough) structured corruptions plus native fuzz targets seeded with valid files; each case runs the public read helpers and queries in three store arrangements. Exploration: no absence claim for the unexplored byte space.",
+            "Allocation measured via runtime.MemStats.TotalAlloc around single-goroutine helper calls; only the framing fields the property lists are set to hostile values.", "DESIGN.md section 5 C19"),
+})
+
 PENDING_REASON ="check not yet built in this revision of /verif (no technical obstacle; see DESIGN.md section 5)"
 
 def main():
